@@ -8,6 +8,8 @@ pub mod registry;
 
 #[cfg(any(feature = "c04", not(kani)))]
 pub mod c04;
+#[cfg(any(feature = "c05", not(kani)))]
+pub mod c05;
 #[cfg(any(feature = "c07", not(kani)))]
 pub mod c07;
 #[cfg(any(feature = "c08", not(kani)))]
